@@ -78,3 +78,41 @@ theorem C05_linearizable_sql (cfg : Wit.Cfg) (reqs : List Wit.Req) (s0 : Option 
   linearizable_sql (decOf cfg) reqs s0 sched
 
 end C05
+
+namespace C05
+open Lin
+
+/-- a request of the mixed workload: an update, or a read of the latest checkpoint -/
+inductive RW | upd (q : Wit.Req) | read
+/-- its result: the update's outcome, or what the read returned -/
+inductive RWOut | upd (o : Wit.Out) | read (v : Option Bytes)
+
+/-- reads take part in the protocol as requests that never write: a read returns the value current when it
+    opens its read handle (`ReadOps` copies it), and that is its linearisation point -/
+def decRW (cfg : Wit.Cfg) : Option Bytes → RW → Dec Bytes RWOut :=
+  fun s q =>
+    match q with
+    | .read => .refuse (.read s)
+    | .upd u =>
+      match decOf cfg s u with
+      | .write v o => .write v (.upd o)
+      | .refuse o => .refuse (.upd o)
+
+/-- updates and reads together: for any interleaving, every update outcome and every value a read returned
+    are those of the same requests executed atomically in the linearisation order (so no reader sees a
+    state that was not current at some point of its own execution, and none sees the size go down unless
+    the sequential witness itself would go down — which C01 excludes) -/
+theorem C05_linearizable_inmem_with_reads (cfg : Wit.Cfg) (reqs : List RW) (s0 : Option Bytes) (sched : List Nat) :
+    let init : Sys Bytes RWOut := { store := s0, pcs := reqs.map (fun _ => .idle), lin := [] }
+    let fin := runSched (decRW cfg) reqs init sched
+    Replays (decRW cfg) reqs s0 fin.lin fin.store ∧
+    (∀ i r, fin.pcs[i]? = some (.done (.ok r)) → (i, r) ∈ fin.lin) ∧
+    (∀ i, fin.pcs[i]? = some (.done .storageErr) → ∀ r, (i, r) ∈ fin.lin → False) := by
+  have h := linearizable (decRW cfg) reqs s0 sched
+  exact ⟨h.1, h.2.1, fun i hi r hr => h.2.2 i hi r hr⟩
+
+/-- a read never fails with a storage conflict and never changes the store -/
+theorem C05_read_is_atomic (cfg : Wit.Cfg) (s : Option Bytes) :
+    specStep (decRW cfg) s RW.read = (s, RWOut.read s) := rfl
+
+end C05
